@@ -1511,3 +1511,45 @@ example :
        (["M05"], {}, []), (["M09"], {}, []), ([], {}, []), (["M00"], {}, [])] ∧
     (GscribModel.MotionTie.srcRun (absB {}) [] ops).1._current_axes = ⟨some 1, some 5, some 0⟩ := by decide +kernel
 
+
+/-! ## The move path under a transform (C04)
+
+`Model/Transform.lean` transcribes `to_absolute` / `_transform_move` by hand for the C04/C13 model.  Here the translated
+`_transform_move`, with `self.transform.apply_transform` an arbitrary function `T`, is shown to be that transcription when
+`T` is the transformer of the model - for every transformer state, every tracked position (unknown axes included), every
+request and both distance modes.  The transform is read nowhere else on the move path (any other `self.transform` in a
+translated method is refused by the translator), and `T := id` is the text the other theorems of this file are about. -/
+namespace GscribModel.MotionTie
+open GscribModel.PointTie
+
+/-- the transformer of the C04/C13 model as the function the translated source applies to a point -/
+def xfOf (tr : GscribModel.Transform.Tr) (p : Pt) : Pt := ofV (tr.applyTransform ⟨p.x, p.y, p.z⟩)
+
+theorem ptAdd_ofV (a b : GscribModel.Transform.V3) : ptAdd (ofV a) (ofV b) = ofV (a.add b) := rfl
+theorem ptSub_ofV (a b : GscribModel.Transform.V3) : ptSub (ofV a) (ofV b) = ofV (a.sub b) := rfl
+theorem xfOf_ofV (tr : GscribModel.Transform.Tr) (v : GscribModel.Transform.V3) :
+    xfOf tr (ofV v) = ofV (tr.applyTransform (GscribModel.Transform.Pt.ofV3 v)) := rfl
+end GscribModel.MotionTie
+
+open GscribModel.MotionTie GscribModel.PointTie in
+/-- the text the motion theorems are about is the general text at `T := id` -/
+theorem MotionTie_transform_move_id (s : BSt) (p : Pt) (h : Rat) :
+    GCodeCore._transform_move s p h = GCodeCore._transform_move_T applyTransformId s p h := rfl
+
+open GscribModel.MotionTie GscribModel.PointTie in
+/-- **`_transform_move` under any transform is the C04 model's `transformMove`**: same move vector (the words written), same
+    new tracked position, the builder untouched. -/
+theorem MotionTie_transform_move_xf (c : GscribModel.Transform.Core) (s : BSt) (req : GscribModel.Transform.Pt) (h : Rat)
+    (hax : s._current_axes = ofT c.axes) (hdm : s._distance_mode = dmOf c.rel) :
+    GCodeCore._transform_move_T (xfOf c.tr) s (ofT req) h =
+      (s, .ok (ofT (c.transformMove req).1, ofV (c.transformMove req).2)) := by
+  simp only [GCodeCore._transform_move_T, GCodeCore.to_absolute, hax, hdm, PointTie_transform_resolve]
+  by_cases hr : c.rel = true
+  · simp only [hr, dmOf, cond_true, decide_true, if_true, ptAdd_ofV, xfOf_ofV, ptSub_ofV, PointTie_transform_combine,
+      GscribModel.Transform.Core.transformMove, GscribModel.Transform.Core.moveVector, GscribModel.Transform.Core.toAbsolute]
+  · have hf : c.rel = false := by simpa using hr
+    have hq : GscribModel.Gen.PointSrc.replace (ofV c.axes.resolve) (ofT req).x (ofT req).y (ofT req).z = ofV (c.axes.resolve.replace req) :=
+      PointTie_transform_replace _ _
+    have hd : decide (DistanceMode.ABSOLUTE = DistanceMode.RELATIVE) = false := by decide
+    simp only [hf, dmOf, cond_false, hq, hd, Bool.false_eq_true, if_false, xfOf_ofV, PointTie_transform_combine,
+      GscribModel.Transform.Core.transformMove, GscribModel.Transform.Core.moveVector, GscribModel.Transform.Core.toAbsolute]
